@@ -109,7 +109,7 @@ def streams(ctx):
             ml, exp, idx = to_model_lines(lines, outs)
             for l, e, i in zip(ml, exp, idx):
                 der.append({"req": l, "expect": canon_msgs(e) if not l.startswith("ml.dump") else e, "kind": "model", "index": a + i,
-                            "check": (lambda out, e=e, l=l: None if (gen_cache.canon(out) == gen_cache.canon(e) if l.startswith("ml.dump") else out == canon_msgs(e)) else ("model", canon_msgs(e)))})
+                            "check": (lambda out, e=e, l=l: None if (gen_cache.canon(out) == gen_cache.canon(e) if l.startswith("ml.dump") else canon_msgs(out) == canon_msgs(e)) else ("model", canon_msgs(e)))})
             # the property: last publication per uri before the yardstick == the yardstick's publication
             last = {}
             stale_risk, skipped_risk = {}, {}
